@@ -118,6 +118,7 @@ def run(ctx):
         forms = qdiff.forms_of(p)
         n_ops = len(p.prods) - 1
         if ctx.tier == 'quick' and n_ops >= 2: forms = [forms[(i + ctx.seed) % len(forms)]]   # rotate the form
+        elif n_ops >= 2 and len(forms) > 2: del forms[(i + ctx.seed) % len(forms)]              # thorough: two of three
         for f in forms:
             _book(ctx, env, qdiff.judge(env, f), prod_used, prod_agree)
     ctx.count('exhaustive.programs', n_enum)
